@@ -57,6 +57,9 @@ def global_state():
     return (st[0], st[1].tobytes(), st[2], st[3], st[4], torch.get_rng_state().numpy().tobytes(), repr(random.getstate()))
 
 
+PREKIND = [None]  # input kind of the calls made before the seed is injected (None: the same kind as afterwards)
+
+
 def run_history(spec, kind, g, pre, perturb, seed):
     """-> ('ok', [digest per call], [digest per replayed call], consumed: bool) | ('exc', where, repr)"""
     import numpy as np
@@ -67,7 +70,7 @@ def run_history(spec, kind, g, pre, perturb, seed):
         return ("exc", "construct", f"{type(e).__name__}: {e}")
     try:
         for j in range(pre):
-            t(cat.inputs(kind, 50 + j), ctx={})
+            t(cat.inputs(PREKIND[0] or kind, 50 + j), ctx={})
     except Exception as e:
         return ("exc", "call_before_injection", f"{type(e).__name__}: {e}")
     if perturb:
@@ -132,10 +135,22 @@ def check_spec(spec, p):
         for seed in SEEDS:
             table = {}   # state (calls since injection) -> observation digest, must be unique over histories
             first = None
-            for g, pre, perturb in histories():
-                r = run_history(spec, kind, g, pre, perturb, seed)
+            kinds = cat.spec_inputs(spec)
+            hist = [(g, pre, perturb, None) for g, pre, perturb in histories()]
+            # the calls before the injection may have seen inputs of ANOTHER size / mode than the calls afterwards
+            for other in kinds:
+                if other != kind and other.startswith("PIL") == kind.startswith("PIL"):
+                    hist += [(0, 1, False, other), (1, 2, True, other)]
+            for g, pre, perturb, prekind in hist:
+                PREKIND[0] = prekind
+                try:
+                    r = run_history(spec, kind, g, pre, perturb, seed)
+                finally:
+                    PREKIND[0] = None
                 p.evaluations += 1
-                case = dict(spec=spec, input=kind, seed=seed, g=g, pre=pre, perturb=perturb)
+                case = dict(spec=spec, input=kind, seed=seed, g=g, pre=pre, perturb=perturb, prekind=prekind)
+                if r[0] == "exc" and r[1] == "call_before_injection" and prekind is not None:
+                    continue  # the other input kind is not accepted by this spec at all
                 if r[0] == "exc" and r[1] in ("call_before_injection", "call_after_injection"):
                     # a call that raises (in-place op on an expanded tensor, crop larger than a patch ...) is not a
                     # determinism question; such specs are counted and left to the properties that own the behaviour
